@@ -8,7 +8,7 @@ CONSTANTS
   RecordHist = FALSE
   MaxHist = 0
   FlagSets <- DefaultFlags
-  EnvActions = {"crash"}
+  EnvActions = {"crash", "extend"}
 VIEW View
 INVARIANTS TypeOK FrameRest
 PROPERTIES Regenerated ExitIgnoresOut Idempotent
